@@ -92,6 +92,7 @@ class Executor:
         self.max_paths = max_paths
         self.inline_depth = inline_depth
         self.stubs = {}              # (module, qualname) -> fn(ex, args, kwargs, call_node)
+        self.recursion_ok = {}       # substring of a qualname -> max depth: structural recursion over a concrete (finite) argument graph is inlined
         self.method_stubs = {}       # attr name -> fn(ex, self_obj, args, kwargs)  (for opaque receivers)
         self.field_oracle = None     # fn(ex, obj, attr) -> value | raise KeyError
         self.solver = z3.Solver()
@@ -660,7 +661,8 @@ class Executor:
         if len(self.stack) > self.inline_depth + 8:
             raise Unsupported(f'inline depth exceeded at {key}')
         depth = sum(1 for k, _ in self.stack if k == key)
-        if depth and not (getattr(clo, 'allow_recursion', False) or (depth < 3 and key[1].endswith(('__deepcopy__', '__copy__', '__init__', 'copy')))):
+        if depth and not (getattr(clo, 'allow_recursion', False) or (depth < 3 and key[1].endswith(('__deepcopy__', '__copy__', '__init__', 'copy')))
+                          or any(sub in key[1] and depth < d for sub, d in self.recursion_ok.items())):
             raise Unsupported(f'recursion without contract: {key}')
         fn = clo.node
         env = Env(clo.module, parent=clo.env if clo.env.vars or clo.env.parent else None)
